@@ -358,14 +358,14 @@ func genFont(t *rapid.T) *fontCase {
 	fc.kind = rapid.SampledFrom([]string{"glyf", "glyf", "cff", "cff", "cid"}).Draw(t, "kind")
 	var n int
 	switch rapid.IntRange(0, 19).Draw(t, "nClass") {
-	case 0, 1:
-		n = 1
-	case 2, 3, 4, 5, 6, 7, 8, 9, 10, 11:
+	case 0, 1, 2, 3, 4, 5, 6, 7, 8, 9:
 		n = rapid.IntRange(2, 8).Draw(t, "n")
-	case 12, 13, 14, 15, 16, 17, 18:
+	case 10, 11, 12, 13, 14, 15, 16:
 		n = rapid.IntRange(9, 40).Draw(t, "n")
-	default:
+	case 17, 18:
 		n = rapid.IntRange(41, 300).Draw(t, "n")
+	default:
+		n = 1
 	}
 	fc.upem = rapid.OneOf(rapid.SampledFrom([]uint16{1000, 1000, 2048, 16, 16384, 64, 1024}), rapid.Uint16Range(16, 16384)).Draw(t, "upem")
 	q := 1 / float64(fc.upem)
@@ -401,8 +401,8 @@ func genFont(t *rapid.T) *fontCase {
 		}
 	}
 
-	fc.fracWidth = fc.kind != "glyf" && rapid.IntRange(0, 7).Draw(t, "fracWidths") == 0
-	fracCoord := fc.kind != "glyf" && rapid.IntRange(0, 3).Draw(t, "fracCoords") == 0
+	fc.fracWidth = fc.kind != "glyf" && rapid.IntRange(0, 7).Draw(t, "fracWidths") == 5
+	fracCoord := fc.kind != "glyf" && rapid.IntRange(0, 3).Draw(t, "fracCoords") == 2
 	fc.curves = "none"
 	if fc.kind != "glyf" {
 		fc.curves = rapid.SampledFrom([]string{"none", "inside", "inside", "bulging"}).Draw(t, "curves")
@@ -424,7 +424,7 @@ func genFont(t *rapid.T) *fontCase {
 		lim = 32000
 	}
 	xc, yc := genCoordClass(t, "xClass", lim), genCoordClass(t, "yClass", lim)
-	emptyPct := rapid.SampledFrom([]int{0, 25, 25, 60, 100}).Draw(t, "emptyPct")
+	emptyPct := rapid.SampledFrom([]int{25, 0, 25, 10, 60, 25, 0, 100}).Draw(t, "emptyPct")
 	widths, _ := genWidthsInt(t, n, lim)
 	for i := 0; i < n; i++ {
 		g := &mglyph{width: float64(widths[i])}
@@ -442,9 +442,9 @@ func genFont(t *rapid.T) *fontCase {
 
 	// character map: codes -> gid in 1..n-1
 	fc.codes = map[uint32]int{}
-	fc.cmapClass = rapid.SampledFrom([]string{"none", "f4", "f4", "f4", "f12", "f12", "f12-bmp", "f4-win-only", "f4-uni-only"}).Draw(t, "cmapClass")
+	fc.cmapClass = rapid.SampledFrom([]string{"f4", "f12", "f4", "none", "f4", "f12", "f12-bmp", "f4-win-only", "f4-uni-only"}).Draw(t, "cmapClass")
 	if fc.cmapClass != "none" && n > 1 {
-		nCodes := rapid.IntRange(0, 8).Draw(t, "nCodes")
+		nCodes := rapid.SampledFrom([]int{3, 1, 2, 5, 8, 12, 0}).Draw(t, "nCodes")
 		bmp := rapid.OneOf(rapid.Uint32Range(0x20, 0x7E), rapid.Uint32Range(0, 0xFFFF),
 			rapid.SampledFrom([]uint32{0, 1, 0x20, 0x41, 0xD7FF, 0xE000, 0xFFFD, 0xFFFE, 0xFFFF}))
 		sup := rapid.OneOf(rapid.Uint32Range(0x10000, 0x10FFFF), rapid.SampledFrom([]uint32{0x10000, 0x1F600, 0x10FFFF}))
